@@ -123,6 +123,23 @@ def run_scenario(entry, plan, container, seed, tid):
             for m in entry["methods"]:
                 r = call(c, m, X2, inv_in)
                 events.append({"op": op, "m": m, "efp": 0, "dfp": fp(caller), "rfp": fp(r)})
+        if kind != "forecaster":       # (re-fitting forecasters: life-cycle checks C03 / C10)
+            # the same object fitted again on other data answers like a fresh estimator fitted on that data only
+            seedB = seed + 50
+            if kind == "series-transformer":
+                XB, yB = series_data(entry, seedB, container), None
+            else:
+                XB, yB = panel_data(entry, seedB, container)
+            aB = (XB,) if yB is None else (XB, yB if kind != "regressor" else np.asarray(yB, dtype=float))
+            callerB = [XB, yB, inv_in, Xa]
+            dB = fp(callerB)
+            est.fit(*aB)
+            events.append({"op": "fit2", "m": "", "efp": efp(est), "dfp": fp(callerB), "d2": dB, "rfp": 0})
+            freshB = entry["factory"]().fit(*copy.deepcopy(aB))
+            for who, obj in (("apply", est), ("fresh", freshB)):
+                for m in entry["methods"]:
+                    r = call(obj, m, XB, inv_in)
+                    events.append({"op": who, "m": m, "efp": efp(est), "dfp": fp(callerB), "rfp": fp(r)})
     try:
         with joblib.parallel_backend("threading"):   # no worker processes: they would lack the compat layer
             body()
